@@ -33,7 +33,7 @@ Fixpoint run_children (d : document) (ops : list dop) (it : children_it) : res (
 (* ------------------------------------------------------------------ *)
 (* children of a row: each child id is a row with the same sibling list *)
 Lemma child_row d t p pp sp x :
-  Arena d t -> In (p, pp, sp) (table t) -> In x (child_ids (p + 1) (tchildren sp)) ->
+  Arena' d t -> In (p, pp, sp) (table t) -> In x (child_ids (p + 1) (tchildren sp)) ->
   exists sx, In (x, Some p, sx) (table t) /\
              sibling_ids t x (Some p) = child_ids (p + 1) (tchildren sp).
 Proof.
@@ -59,7 +59,7 @@ Qed.
 
 Section Children.
   Variables (d : document) (t : tree) (p : N) (pp : option N) (sp : tree).
-  Hypothesis HA : Arena d t.
+  Hypothesis HA : Arena' d t.
   Hypothesis Hp : In (p, pp, sp) (table t).
 
   Let L := child_ids (p + 1) (tchildren sp).
@@ -73,7 +73,7 @@ Section Children.
     intros E.
     assert (Hx : In x L) by (rewrite E; apply in_elt).
     destruct (child_row d t p pp sp x HA Hp Hx) as (sx & Hrow & Es).
-    rewrite (nav_next_sibling _ _ _ _ _ HA Hrow), Es. fold L. rewrite E.
+    rewrite (nav_next_sibling' _ _ _ _ _ HA Hrow), Es. fold L. rewrite E.
     rewrite after_split; [reflexivity|].
     apply (NoDup_app_notin pre x post). rewrite <- E. apply L_NoDup.
   Qed.
@@ -84,7 +84,7 @@ Section Children.
     intros E.
     assert (Hx : In x L) by (rewrite E; apply in_elt).
     destruct (child_row d t p pp sp x HA Hp Hx) as (sx & Hrow & Es).
-    rewrite (nav_prev_sibling _ _ _ _ _ HA Hrow), Es. fold L. rewrite E.
+    rewrite (nav_prev_sibling' _ _ _ _ _ HA Hrow), Es. fold L. rewrite E.
     rewrite before_split; [reflexivity|].
     apply (NoDup_app_notin pre x post). rewrite <- E. apply L_NoDup.
   Qed.
@@ -191,13 +191,13 @@ Section Children.
   Lemma children_spec : children d p = Ok (mk_it L).
   Proof.
     unfold children.
-    rewrite (nav_first_child _ _ _ _ _ HA Hp), (nav_last_child _ _ _ _ _ HA Hp).
+    rewrite (nav_first_child' _ _ _ _ _ HA Hp), (nav_last_child' _ _ _ _ _ HA Hp).
     reflexivity.
   Qed.
 End Children.
 
-Theorem nav_children : forall d t id par s,
-  Arena d t -> In (id, par, s) (table t) ->
+Theorem nav_children' : forall d t id par s,
+  Arena' d t -> In (id, par, s) (table t) ->
   children_list d id = Ok (child_ids (id + 1) (tchildren s)).
 Proof.
   intros d t id par s HA Hin. unfold children_list.
@@ -210,10 +210,10 @@ Proof.
     rewrite child_ids_length. destruct s as [k cs]. cbn [tchildren].
     rewrite size_T in Hb. pose proof (length_le_sizes cs). lia.
 Qed.
-Print Assumptions nav_children.
+Print Assumptions nav_children'.
 
-Theorem children_deque : forall d t id par s ops it,
-  Arena d t -> In (id, par, s) (table t) ->
+Theorem children_deque' : forall d t id par s ops it,
+  Arena' d t -> In (id, par, s) (table t) ->
   Forall (fun o => o = DNext \/ o = DNextBack) ops ->
   children d id = Ok it ->
   run_children d ops it = Ok (deque_run ops (child_ids (id + 1) (tchildren s))).
@@ -222,7 +222,7 @@ Proof.
   rewrite (children_spec d t id par s HA Hin) in Hit. injection Hit as <-.
   apply (run_children_spec d t id par s HA Hin); [apply seg_L | exact HF].
 Qed.
-Print Assumptions children_deque.
+Print Assumptions children_deque'.
 
 (* ------------------------------------------------------------------ *)
 (* slice iterators *)
@@ -325,3 +325,24 @@ Proof.
   - cbn [run_slice deque_run]. rewrite sit_len_spec, IH by exact Hle. reflexivity.
 Qed.
 Print Assumptions slice_deque.
+
+(* ------------------------------------------------------------------ *)
+(* the theorems for [Arena] (strict bound) *)
+Theorem nav_children : forall d t id par s,
+  Arena d t -> In (id, par, s) (table t) ->
+  children_list d id = Ok (child_ids (id + 1) (tchildren s)).
+Proof.
+  intros *. intros HA. generalize (Arena_weaken _ _ HA). clear HA. apply nav_children'.
+Qed.
+Print Assumptions nav_children.
+
+Theorem children_deque : forall d t id par s ops it,
+  Arena d t -> In (id, par, s) (table t) ->
+  Forall (fun o => o = DNext \/ o = DNextBack) ops ->
+  children d id = Ok it ->
+  run_children d ops it = Ok (deque_run ops (child_ids (id + 1) (tchildren s))).
+Proof.
+  intros *. intros HA. generalize (Arena_weaken _ _ HA). clear HA. apply children_deque'.
+Qed.
+Print Assumptions children_deque.
+
